@@ -68,13 +68,18 @@ def committedOf (leo : Nat) (ck : Option Ckpt) (minISR : Nat) : Nat :=
 
 def localRet (ch : Chan) : Nat := match ch.ret with | some r => r.loc | none => 0
 
-/-- the request `readLocalCommitted` hands to the adapter, or an early answer -/
+/-- the request `readLocalCommitted` hands to the adapter, or an early answer.
+    The last early answer (`committed = 0`) is the repair of the "MaxSeq 0 means
+    uncapped" leak: without it a forward read from sequence 0 with nothing
+    committed returned the uncommitted tail. -/
 def clampReq (req : Req) (committed floor : Nat) : Req ⊕ RRes :=
-  let req := { req with minSeq := Nat.max req.minSeq (nextSeq floor) }
-  let req := if req.maxSeq = 0 ∨ req.maxSeq > committed then { req with maxSeq := committed } else req
-  if !req.reverse ∧ req.fromSeq > committed then .inr ⟨[], req.fromSeq⟩
-  else if req.reverse ∧ req.fromSeq > committed then .inl { req with fromSeq := committed }
-  else .inl req
+  let minS := Nat.max req.minSeq (nextSeq floor)
+  let maxS := if req.maxSeq = 0 ∨ req.maxSeq > committed then committed else req.maxSeq
+  if req.reverse = false ∧ req.fromSeq > committed then .inr ⟨[], req.fromSeq⟩
+  else
+    let fromS := if req.reverse = true ∧ req.fromSeq > committed then committed else req.fromSeq
+    if committed = 0 then .inr ⟨[], fromS⟩
+    else .inl ⟨fromS, maxS, minS, req.limit, req.maxBytes, req.reverse⟩
 
 /-- `channels.Service.readLocalCommitted` -/
 def readLocal (ch : Chan) (req : Req) (rts minISR : Nat) : Chan × Except Err RRes :=
@@ -158,44 +163,59 @@ def trimDecision (st : RState) (t : Nat) : Bool × String :=
 /-! ### store mutations through the compat ChannelStore -/
 def retOrZero (ch : Chan) : Ret := match ch.ret with | some r => r | none => ⟨0, 0, 0⟩
 
-/-- compat `AdoptRetentionBoundary` (the dispatch cursor is not observable here) -/
+def adoptRet (state : Ret) (leo through : Nat) : Ret :=
+  ⟨Nat.max state.loc through, state.phys, Nat.max state.max (Nat.max leo through)⟩
+
+/-- `if next.RetainedMaxSeq > leo { leo = next.RetainedMaxSeq }` on the cached LEO -/
+def bumpLeo (ch : Chan) (m : Nat) : Chan :=
+  match ch.leoC with
+  | some l => if m > l then { ch with leoC := some m } else ch
+  | none => ch
+
+/-- compat `AdoptRetentionBoundary` (the dispatch cursor is not observable here; writing an
+    unchanged retention state is a no-op) -/
 def adopt (ch : Chan) (through : Nat) : Chan × Except Err Unit :=
   if through = 0 then (ch, .error .invalid)
   else
-    let (leo, ch) := loadLEO ch
-    let state := retOrZero ch
-    let next : Ret := ⟨Nat.max state.loc through, state.phys, Nat.max state.max (Nat.max leo through)⟩
-    let ch := if ch.ret = some next then ch else { ch with ret := some next }
-    let ch := match ch.leoC with
-      | some l => if next.max > l then { ch with leoC := some next.max } else ch
-      | none => ch
-    (ch, .ok ())
+    let next := adoptRet (retOrZero (loadLEO ch).2) (loadLEO ch).1 through
+    (bumpLeo { (loadLEO ch).2 with ret := some next } next.max, .ok ())
+
+structure TrimPlan where
+  del : List Row
+  delThrough : Nat
+  more : Bool
+  phys : Nat
+
+/-- which of the rows read for a trim are deleted, and the next physical boundary -/
+def trimPlan (rows : List Row) (statePhys through maxMsgs maxBytes : Nat) : TrimPlan :=
+  let more1 : Bool := decide (maxMsgs > 0 ∧ rows.length > maxMsgs)
+  let del := if more1 then rows.take maxMsgs else rows
+  let lastBelow : Bool := match del.getLast? with | some r => decide (r.seq < through) | none => false
+  let more : Bool := more1 || (decide (maxBytes > 0) && lastBelow)
+  let delThrough := match del.getLast? with | some r => r.seq | none => 0
+  let phys := if more = false ∧ through > statePhys then through
+              else if delThrough > statePhys then delThrough else statePhys
+  ⟨del, delThrough, more, phys⟩
 
 /-- `trimPrefixThroughLimit` with adoptBoundary = false, on one channel (indexes are not observed by C10) -/
 def trimNoAdopt (ch : Chan) (through maxMsgs maxBytes : Nat) : Chan × Except Err (Nat × Nat × Bool) :=
   if through = 0 then (ch, .error .invalid)
   else
-    let (leo, ch) := loadLEO ch
+    let leo := (loadLEO ch).1
+    let ch := (loadLEO ch).2
     let state := retOrZero ch
     if through > state.loc then (ch, .error .corruptstate)
     else
-      let limit := if maxMsgs > 0 then maxMsgs + 1 else 0
-      match readForward ch.rows (state.phys + 1) through limit maxBytes with
+      match readForward ch.rows (state.phys + 1) through (if maxMsgs > 0 then maxMsgs + 1 else 0) maxBytes with
       | .error e => (ch, .error e)
       | .ok rows =>
-        let more1 : Bool := decide (maxMsgs > 0 ∧ rows.length > maxMsgs)
-        let del := if more1 then rows.take maxMsgs else rows
-        let lastBelow : Bool := match del.getLast? with | some r => decide (r.seq < through) | none => false
-        let more : Bool := more1 || (decide (maxBytes > 0) && lastBelow)
-        let delThrough := match del.getLast? with | some r => r.seq | none => 0
-        let phys := if more = false ∧ through > state.phys then through
-                    else if delThrough > state.phys then delThrough else state.phys
-        let next : Ret := ⟨state.loc, phys, if leo > state.max then leo else state.max⟩
-        if !retValid next then (ch, .error .corruptvalue)
+        let p := trimPlan rows state.phys through maxMsgs maxBytes
+        let next : Ret := ⟨state.loc, p.phys, if leo > state.max then leo else state.max⟩
+        if retValid next = false then (ch, .error .corruptvalue)
         else
-          let ch := { ch with rows := ch.rows.filter (fun r => !(del.any (fun d => d.seq = r.seq))),
-                              ret := some next, leoC := some (if leo > next.max then leo else next.max) }
-          (ch, .ok (delThrough, del.length, more))
+          ({ ch with rows := ch.rows.filter (fun r => !(p.del.any (fun d => d.seq = r.seq))),
+                     ret := some next, leoC := some (if leo > next.max then leo else next.max) },
+           .ok (p.delThrough, p.del.length, p.more))
 
 structure RetOut where
   loc : Nat
